@@ -30,6 +30,8 @@ pub struct Abs {
     pub covseq: String,
     /// RefCover of Classify.tla for this case
     pub ref_cover: bool,
+    /// field 72 opens with a line without any code word
+    pub lead: bool,
 }
 
 impl Abs {
@@ -41,6 +43,7 @@ impl Abs {
             flag: v["flag"].as_str().unwrap_or("none").to_string(),
             covseq: v["covseq"].as_str().unwrap_or("none").to_string(),
             ref_cover: v["cover"].as_bool().unwrap_or(false),
+            lead: v["lead"].as_bool().unwrap_or(false),
         }
     }
     fn supports(&self) -> bool { matches!(self.mt.as_str(), "103" | "202" | "205") }
@@ -63,6 +66,8 @@ impl Abs {
             _ => b.push_str(":20:TXN20240719001\r\n:32A:240719USD1250,50\r\n:57A:CHASUS33XXX\r\n"),
         }
         let lines: Vec<&str> = WORD_ORDER.iter().filter(|(w, _)| self.words.iter().any(|x| x == w)).map(|(_, l)| *l).collect();
+        let mut lines = lines;
+        if self.lead && !lines.is_empty() { lines.insert(0, "/INS/CHASUS33"); }
         if !lines.is_empty() {
             b.push_str(":72:");
             b.push_str(&lines.join("\r\n"));
@@ -167,6 +172,7 @@ fn smaller_raw(a: &Abs) -> Vec<Abs> {
     if a.mur != "none" { let mut b = a.clone(); b.mur = "none".into(); out.push(b); }
     if a.flag != "none" { let mut b = a.clone(); b.flag = "none".into(); out.push(b); }
     if a.covseq != "none" { let mut b = a.clone(); b.covseq = "none".into(); out.push(b); }
+    if a.lead { let mut b = a.clone(); b.lead = false; out.push(b); }
     out
 }
 
@@ -205,7 +211,7 @@ pub fn run(args: &[String]) -> i32 {
             // minimal cases only: no smaller case shows the same mismatch
             let minimal = !smaller(&a).iter().any(|b| observe(b).map(|ob| mismatches(b, &ob).contains(&m)).unwrap_or(false));
             if minimal {
-                let sig = format!("C17|MT{}|{}|words={}|mur={}|flag={}|cov={}", a.mt, m, a.words.join("+"), a.mur, a.flag, a.covseq);
+                let sig = format!("C17|MT{}|{}|words={}{}|mur={}|flag={}|cov={}", a.mt, m, a.words.join("+"), if a.lead { "|after-a-neutral-line" } else { "" }, a.mur, a.flag, a.covseq);
                 violations.push(json!({"sig": sig, "replay": {"kind": "classify", "case": v, "text": a.text(), "observed": format!("{:?}", o)}}));
             } else {
                 subsumed += 1;
